@@ -40,6 +40,11 @@ FUNCS = [  # (lean name, file, class, method, translator key, lean type)
     ("execAll", "statemachine/callbacks.py", "CallbacksExecutor", "all", "executor", "List XStmt"),
     ("execAsyncCall", "statemachine/callbacks.py", "CallbacksExecutor", "async_call", "executor", "List XStmt"),
     ("execAsyncAll", "statemachine/callbacks.py", "CallbacksExecutor", "async_all", "executor", "List XStmt"),
+    ("eventCall", "statemachine/event.py", "Event", "__call__", "eventcall", "List EStmt"),
+    ("smSend", "statemachine/statemachine.py", "StateMachine", "send", "send", "List SStmt"),
+    ("engineStart", "statemachine/engines/base.py", "BaseEngine", "start", "start", "List StStmt"),
+    ("reservedNames", "statemachine/event.py", None, "_event_data_kwargs", "reserved", "List String"),
+    ("injectedNames", "statemachine/event_data.py", "EventData", "extended_kwargs", "injected", "List String"),
 ]
 ASYNC_DEF = {"activateAsync", "triggerAsync", "processAsync", "wrapperDunder", "execAsyncCall", "execAsyncAll"}
 
@@ -81,6 +86,8 @@ def method(repo, rel, cls, name):
         tree = ast.parse(open(path).read())
     except (OSError, SyntaxError) as e:
         raise Untranslatable(f"cannot parse {rel}: {e}")
+    if cls is None:
+        return tree
     for c in tree.body:
         if isinstance(c, ast.ClassDef) and c.name == cls:
             found = [f for f in c.body if isinstance(f, (ast.FunctionDef, ast.AsyncFunctionDef)) and f.name == name]
@@ -421,7 +428,148 @@ def tr_executor(fn):
     return "[\n  " + ",\n  ".join(out) + "]"
 
 
-TRANSLATORS = {"activate": tr_activate, "trigger": tr_trigger, "process": tr_process, "wrapper": tr_wrapper,
+def tr_eventcall(fn):
+    body, env = prepare_star(fn)
+    out = []
+    for s in body:
+        t = text(s, env)
+        m = re.match(r"^(\w+) = self\._sm$", t)
+        if m:
+            bind(env, m.group(1), "MACHINE")
+            out.append(".getMachine")
+            continue
+        if re.match(r"^if MACHINE is None:\n    raise RuntimeError\(.*\)$", t, flags=re.S):
+            out.append(".raiseIfUnbound")
+            continue
+        m = re.match(r"^K = \{(\w+): (\w+) for \1, \2 in K\.items\(\) if \1 not in _event_data_kwargs\}$", t)
+        if m:
+            out.append(".stripReserved")
+            continue
+        m = re.match(r"^(\w+) = TriggerData\(machine=MACHINE, event=self, args=A, kwargs=K\)$", t)
+        if m:
+            bind(env, m.group(1), "TD")
+            out.append(".mkTrigger")
+            continue
+        if t == "MACHINE._put_nonblocking(TD)":
+            out.append(".put")
+            continue
+        m = re.match(r"^(\w+) = MACHINE\._processing_loop\(\)$", t)
+        if m:
+            bind(env, m.group(1), "RESULT")
+            out.append(".processingLoop")
+            continue
+        if t == "if not isawaitable(RESULT):\n    return RESULT":
+            out.append(".retIfPlain")
+            continue
+        if t == "return run_async_from_sync(RESULT)":
+            out.append(".retRunAsync")
+            continue
+        raise Untranslatable(f"{fn.name}: statement at line {s.lineno} not recognised: {t!r}")
+    return "[\n  " + ",\n  ".join(out) + "]"
+
+
+def tr_send(fn):
+    if fn.decorator_list:
+        raise Untranslatable("send: decorated")
+    a = fn.args
+    names = [x.arg for x in a.posonlyargs + a.args]
+    if len(names) != 2 or names[0] != "self" or not a.vararg or not a.kwarg or a.kwonlyargs or a.defaults:
+        raise Untranslatable(f"send: parameters {ast.unparse(a)}")
+    env = {names[1]: "EVENT", a.vararg.arg: "A", a.kwarg.arg: "K"}
+    body = list(fn.body)
+    if body and isinstance(body[0], ast.Expr) and isinstance(body[0].value, ast.Constant) \
+            and isinstance(body[0].value.value, str):
+        body = body[1:]
+    out = []
+    for s in body:
+        if isinstance(s, ast.If) and len(s.body) == 1 and len(s.orelse) == 1:
+            # annotations on the assignment do not matter
+            def strip_ann(x):
+                if isinstance(x, ast.AnnAssign) and x.value is not None and isinstance(x.target, ast.Name):
+                    return ast.Assign(targets=[x.target], value=x.value, lineno=x.lineno)
+                return x
+            s2 = ast.If(test=s.test, body=[strip_ann(s.body[0])], orelse=[strip_ann(s.orelse[0])])
+            ast.fix_missing_locations(s2)
+            t = text(s2, env)
+            m = re.match(r"^if EVENT in self\.__class__\._events:\n    (\w+) = getattr\(self, EVENT\)\n"
+                         r"else:\n    \1 = BoundEvent\(id=EVENT, name=EVENT, _sm=self\)$", t)
+            if m:
+                bind(env, m.group(1), "EI")
+                out.append(".resolveEvent")
+                continue
+        t = text(s, env)
+        m = re.match(r"^(\w+) = EI\(\*A, \*\*K\)$", t)
+        if m:
+            bind(env, m.group(1), "RESULT")
+            out.append(".callEvent")
+            continue
+        if t == "if not isawaitable(RESULT):\n    return RESULT":
+            out.append(".retIfPlain")
+            continue
+        if t == "return run_async_from_sync(RESULT)":
+            out.append(".retRunAsync")
+            continue
+        raise Untranslatable(f"send: statement at line {s.lineno} not recognised: {t!r}")
+    return "[\n  " + ",\n  ".join(out) + "]"
+
+
+def tr_start(fn):
+    body, params, _ = prepare(fn, 0)
+    env = {}
+    out = []
+    for s in body:
+        t = text(s, env)
+        if t == "if self.sm.current_state_value is not None:\n    return":
+            out.append(".returnIfState")
+            continue
+        m = re.match(r"^(\w+) = TriggerData\(machine=self\.sm, event=BoundEvent\('__initial__', _sm=self\.sm\)\)$", t)
+        if m:
+            bind(env, m.group(1), "TD")
+            out.append(".mkActivation")
+            continue
+        if t == "self._activation = TD":
+            out.append(".remember")
+            continue
+        if t == "self.put(TD)":
+            out.append(".put")
+            continue
+        raise Untranslatable(f"start: statement at line {s.lineno} not recognised: {t!r}")
+    return "[\n  " + ",\n  ".join(out) + "]"
+
+
+def _strlist(xs):
+    return "[" + ", ".join('"' + x + '"' for x in xs) + "]"
+
+
+def tr_reserved(tree):
+    """the module-level set literal `_event_data_kwargs = {...}` of event.py, sorted"""
+    for node in tree.body:
+        if isinstance(node, ast.Assign) and len(node.targets) == 1 and isinstance(node.targets[0], ast.Name) \
+                and node.targets[0].id == "_event_data_kwargs":
+            v = node.value
+            if isinstance(v, ast.Set) and all(isinstance(e, ast.Constant) and isinstance(e.value, str) for e in v.elts):
+                return _strlist(sorted(e.value for e in v.elts))
+            raise Untranslatable("_event_data_kwargs is not a set of string literals")
+    raise Untranslatable("_event_data_kwargs not found")
+
+
+def tr_injected(fn):
+    """the keys `EventData.extended_kwargs` sets on the copy of the user's keywords, sorted"""
+    body = [s for s in fn.body if not (isinstance(s, ast.Expr) and isinstance(s.value, ast.Constant))]
+    keys = []
+    if not body or ast.unparse(body[0]) != "kwargs = self.trigger_data.kwargs.copy()" \
+            or ast.unparse(body[-1]) != "return kwargs":
+        raise Untranslatable("extended_kwargs: not `kwargs = self.trigger_data.kwargs.copy()` … `return kwargs`")
+    for s in body[1:-1]:
+        m = re.match(r"^kwargs\['(\w+)'\] = .+$", ast.unparse(s))
+        if not m:
+            raise Untranslatable(f"extended_kwargs: statement at line {s.lineno}: {ast.unparse(s)!r}")
+        keys.append(m.group(1))
+    return _strlist(sorted(keys))
+
+
+TRANSLATORS = {"eventcall": tr_eventcall, "send": tr_send, "start": tr_start, "injected": tr_injected,
+               "activate": tr_activate, "trigger": tr_trigger, "process": tr_process, "wrapper": tr_wrapper,
                "executor": tr_executor}
 
 
@@ -431,6 +579,13 @@ def translate(repo):
     for name, rel, cls, meth, key, ty in FUNCS:
         try:
             fn = method(repo, rel, cls, meth)
+            if key == "reserved":
+                res[name] = (ty, tr_reserved(fn), None)
+                continue
+            if key == "injected":
+                if [ast.unparse(d) for d in fn.decorator_list] != ["property"]:
+                    raise Untranslatable("extended_kwargs is not a property")
+                fn.decorator_list = []
             is_async = isinstance(fn, ast.AsyncFunctionDef)
             if is_async != (name in ASYNC_DEF):
                 raise Untranslatable(f"{cls}.{meth}: {'async def' if is_async else 'def'}")
